@@ -363,6 +363,9 @@ class LineStr(AbstractValue):
 class NonBlank(AbstractValue):
     prov = ('non-blank',)
 
+    def abs_is(self, interp, other):
+        return self is other
+
     def abs_truth(self, interp):
         return True
 
@@ -378,6 +381,12 @@ class JoinedLines(AbstractValue):
     def __init__(self, lines):
         self.lines = list(lines)
         self.prov = ('joined', tuple(l.i for l in self.lines))
+
+    def abs_is(self, interp, other):
+        return self is other
+
+    def abs_truth(self, interp):
+        return bool(self.lines)
 
     def abs_len(self, interp):
         from ..affine import Aff
